@@ -189,4 +189,331 @@ theorem valueOf_eq (immune limited : List Int) (pen : Nat → Rat) (rd : Reader)
               | .ok v => .ok v
               | .error _ => .divZero := rfl
 
+/-! ## Completeness of `gather`: every selecting modifier with a source value is gathered -/
+
+theorem foldlM_sub {ε α γ : Type} (f : List γ → α → Except ε (List γ))
+    (hmono : ∀ acc a acc', f acc a = .ok acc' → acc ⊆ acc') (l : List α) :
+    ∀ (init r : List γ), l.foldlM f init = .ok r → init ⊆ r := by
+  induction l with
+  | nil => intro init r h; simp only [List.foldlM_nil, pure, Except.pure, Except.ok.injEq] at h; exact h ▸ List.Subset.refl _
+  | cons a l ih =>
+    intro init r h
+    rw [List.foldlM_cons] at h
+    obtain ⟨b, hb, h⟩ := except_bind_ok h
+    exact List.Subset.trans (hmono _ _ _ hb) (ih b r h)
+
+theorem foldlM_hit {ε α γ : Type} (f : List γ → α → Except ε (List γ))
+    (hmono : ∀ acc a acc', f acc a = .ok acc' → acc ⊆ acc')
+    (Q : List γ → Prop) (hQ : ∀ b b', b ⊆ b' → Q b → Q b') (l : List α) (a : α) (ha : a ∈ l)
+    (hit : ∀ acc acc', f acc a = .ok acc' → Q acc') :
+    ∀ (init r : List γ), l.foldlM f init = .ok r → Q r := by
+  induction l with
+  | nil => cases ha
+  | cons a' l ih =>
+    intro init r h
+    rw [List.foldlM_cons] at h
+    obtain ⟨b, hb, h2⟩ := except_bind_ok h
+    clear h
+    rcases List.mem_cons.1 ha with rfl | ha'
+    · exact hQ b r (foldlM_sub f hmono l b r h2) (hit _ _ hb)
+    · exact ih ha' b r h2
+
+variable {u : Universe} {cfg : Config}
+
+theorem mkMod_mono {rd : Reader} {x a : Item} {e : Effect} {imm : Bool} (acc : List Mod) (m : Modifier)
+    (acc' : List Mod) (h : mkMod cfg rd x a e imm m acc = .ok acc') : acc ⊆ acc' := by
+  rcases mkMod_ok h with rfl | ⟨v, r, _, _, rfl⟩
+  · exact List.Subset.refl _
+  · exact List.subset_append_left _ _
+
+/-- The modification that modifier `m` of effect `e` on `a` (immunity flag `imm`) produces from source
+value `v` is in `acc`, with the resistance factor of `e` against `x`. -/
+def Hit (cfg : Config) (rd : Reader) (x : Item) (e : Effect) (imm : Bool) (m : Modifier) (v : Rat)
+    (acc : List Mod) : Prop :=
+  ∃ r, resistOf cfg rd e x = .ok r ∧
+    ({ op := m.op, value := v, resist := r, agg := m.agg, aggKey := m.aggKey, immune := imm } : Mod) ∈ acc
+
+theorem Hit.mono {rd : Reader} {x : Item} {e : Effect} {imm : Bool} {m : Modifier} {v : Rat}
+    (b b' : List Mod) (h : b ⊆ b') : Hit cfg rd x e imm m v b → Hit cfg rd x e imm m v b' :=
+  fun ⟨r, hr, hm⟩ => ⟨r, hr, h hm⟩
+
+theorem mkMod_hit {rd : Reader} {x a : Item} {e : Effect} {imm : Bool} {m : Modifier} {v : Rat}
+    (hv : rd a m.srcAttr = .ok v) (acc acc' : List Mod) (h : mkMod cfg rd x a e imm m acc = .ok acc') :
+    Hit cfg rd x e imm m v acc' := by
+  unfold mkMod at h; rw [hv] at h; dsimp only at h
+  split at h
+  · cases h; exact ⟨_, ‹_›, by simp⟩
+  · cases h
+
+theorem mods_fold_mono {rd : Reader} {x a : Item} {e : Effect} {imm : Bool} (l : List Modifier)
+    (acc r : List Mod) (h : l.foldlM (fun acc m => mkMod cfg rd x a e imm m acc) acc = .ok r) : acc ⊆ r :=
+  foldlM_sub _ mkMod_mono l acc r h
+
+theorem mods_fold_hit {rd : Reader} {x a : Item} {e : Effect} {imm : Bool} {m : Modifier} {v : Rat}
+    (l : List Modifier) (hm : m ∈ l) (hv : rd a m.srcAttr = .ok v)
+    (acc r : List Mod) (h : l.foldlM (fun acc m => mkMod cfg rd x a e imm m acc) acc = .ok r) :
+    Hit cfg rd x e imm m v r :=
+  foldlM_hit _ mkMod_mono _ Hit.mono l m hm (mkMod_hit hv) acc r h
+
+section
+variable {immune : List Int} {rd : Reader} {x : Item} {tx : ItemType} {attr : Int} {a : Item} {ta : ItemType}
+
+theorem effStep_split {e : Effect} {acc r : List Mod}
+    (h : effStep u cfg immune rd x tx attr a ta acc e = .ok r) :
+    ∃ acc1 acc2,
+      (e.mods.filter fun m => m.tgtAttr == attr && affectsLocal cfg a m x tx).foldlM
+        (fun acc m => mkMod cfg rd x a e (match ta.category with | some c => immune.contains c | none => false) m acc)
+        acc = .ok acc1 ∧
+      (projectionTargets cfg a e).foldlM (fun acc tg =>
+        (e.mods.filter fun m => m.domain == 4 && m.tgtAttr == attr && affectsProjected cfg a m tg x tx).foldlM
+          (fun acc m => mkMod cfg rd x a e (match ta.category with | some c => immune.contains c | none => false) m acc)
+          acc) acc1 = .ok acc2 ∧
+      (if e.isBuff then
+        ∃ bms, (if u.buffs.any (·.tgtAttr == attr) then buffModifiers u rd a else pure []) = .ok bms ∧
+          (boostTargets cfg a.fit).foldlM (fun acc tg =>
+            ((bms ++ e.mods.filter (·.domain == 4)).filter fun m =>
+                m.tgtAttr == attr && affectsProjected cfg a m tg x tx).foldlM
+              (fun acc m => mkMod cfg rd x a e (match ta.category with | some c => immune.contains c | none => false) m acc)
+              acc) acc2 = .ok r
+       else acc2 = r) := by
+  unfold effStep at h
+  obtain ⟨acc1, h1, h⟩ := except_bind_ok h
+  obtain ⟨acc2, h2, h⟩ := except_bind_ok h
+  refine ⟨acc1, acc2, h1, h2, ?_⟩
+  by_cases hb : e.isBuff = true
+  · rw [if_pos hb] at h ⊢
+    obtain ⟨bms, hbm, h⟩ := except_bind_ok h
+    exact ⟨bms, hbm, h⟩
+  · rw [if_neg hb] at h ⊢
+    cases h; rfl
+
+theorem effStep_mono (acc : List Mod) (e : Effect) (r : List Mod)
+    (h : effStep u cfg immune rd x tx attr a ta acc e = .ok r) : acc ⊆ r := by
+  obtain ⟨acc1, acc2, h1, h2, h3⟩ := effStep_split h
+  have s1 := mods_fold_mono _ _ _ h1
+  have s2 := foldlM_sub _ (fun acc tg acc' => mods_fold_mono _ acc acc') _ _ _ h2
+  refine List.Subset.trans s1 (List.Subset.trans s2 ?_)
+  split at h3
+  · obtain ⟨bms, _, h3⟩ := h3
+    exact foldlM_sub _ (fun acc tg acc' => mods_fold_mono _ acc acc') _ _ _ h3
+  · exact h3 ▸ List.Subset.refl _
+
+theorem buffModifiers_tgt {bms : List Modifier} (h : buffModifiers u rd a = .ok bms) :
+    ∀ m ∈ bms, ∃ bt ∈ u.buffs, bt.tgtAttr = m.tgtAttr := by
+  unfold buffModifiers at h
+  refine foldlM_except_inv (fun acc => ∀ m ∈ acc, ∃ bt ∈ u.buffs, bt.tgtAttr = m.tgtAttr) _ _ [] bms
+    (fun _ hm => by cases hm) ?_ h
+  intro acc p acc' _ hacc hf
+  split at hf
+  · cases hf
+    intro m hm
+    rcases List.mem_append.1 hm with hm | hm
+    · exact hacc m hm
+    · obtain ⟨bt, hbt, rfl⟩ := List.mem_map.1 hm
+      exact ⟨bt, (List.mem_filter.1 hbt).1, rfl⟩
+  · cases hf; exact hacc
+  · cases hf
+
+/-- The three ways a modifier `m` of running effect `e` on `a` selects item `x`. -/
+def Selects (u : Universe) (cfg : Config) (rd : Reader) (x : Item) (tx : ItemType) (a : Item) (e : Effect)
+    (m : Modifier) : Prop :=
+  (m ∈ e.mods ∧ affectsLocal cfg a m x tx = true) ∨
+  (m ∈ e.mods ∧ m.domain = 4 ∧ ∃ tg ∈ projectionTargets cfg a e, affectsProjected cfg a m tg x tx = true) ∨
+  (e.isBuff = true ∧ ((∃ bms, buffModifiers u rd a = .ok bms ∧ m ∈ bms) ∨ (m ∈ e.mods ∧ m.domain = 4)) ∧
+     ∃ tg ∈ boostTargets cfg a.fit, affectsProjected cfg a m tg x tx = true)
+
+theorem effStep_hit {e : Effect} {m : Modifier} {v : Rat} (hm : m.tgtAttr = attr)
+    (hv : rd a m.srcAttr = .ok v) (hsel : Selects u cfg rd x tx a e m) (acc r : List Mod)
+    (h : effStep u cfg immune rd x tx attr a ta acc e = .ok r) :
+    Hit cfg rd x e (match ta.category with | some c => immune.contains c | none => false) m v r := by
+  obtain ⟨acc1, acc2, h1, h2, h3⟩ := effStep_split h
+  have s2 : acc1 ⊆ acc2 := foldlM_sub _ (fun acc tg acc' => mods_fold_mono _ acc acc') _ _ _ h2
+  have s3 : acc2 ⊆ r := by
+    split at h3
+    · obtain ⟨bms, _, h3⟩ := h3
+      exact foldlM_sub _ (fun acc tg acc' => mods_fold_mono _ acc acc') _ _ _ h3
+    · exact h3 ▸ List.Subset.refl _
+  rcases hsel with ⟨hme, hloc⟩ | ⟨hme, hd, tg, htg, hpr⟩ | ⟨hb, hsrc, tg, htg, hpr⟩
+  · refine Hit.mono _ _ (List.Subset.trans s2 s3) (mods_fold_hit _ ?_ hv _ _ h1)
+    simp [List.mem_filter, hme, hm, hloc]
+  · refine Hit.mono _ _ s3 (foldlM_hit _ (fun acc tg acc' => mods_fold_mono _ acc acc') _ Hit.mono _ tg htg
+      (fun acc acc' hf => mods_fold_hit _ ?_ hv _ _ hf) _ _ h2)
+    simp [List.mem_filter, hme, hm, hd, hpr]
+  · rw [if_pos hb] at h3
+    obtain ⟨bms, hbm, h3⟩ := h3
+    refine foldlM_hit _ (fun acc tg acc' => mods_fold_mono _ acc acc') _ Hit.mono _ tg htg
+      (fun acc acc' hf => mods_fold_hit _ ?_ hv _ _ hf) _ _ h3
+    simp only [List.mem_filter, List.mem_append, Bool.and_eq_true, beq_iff_eq]
+    refine ⟨?_, hm, hpr⟩
+    rcases hsrc with ⟨bms', hbm', hmb⟩ | ⟨hme, hd⟩
+    · left
+      obtain ⟨bt, hbt, htg'⟩ := buffModifiers_tgt hbm' m hmb
+      have hany : u.buffs.any (·.tgtAttr == attr) = true :=
+        List.any_eq_true.2 ⟨bt, hbt, by simp [htg', hm]⟩
+      rw [if_pos hany, hbm'] at hbm
+      cases hbm; exact hmb
+    · exact Or.inr ⟨hme, hd⟩
+
+end
+
+/-- Every modifier that targets the attribute, has a source value and selects `x` contributes its
+modification (the converse of `gather_prov`). -/
+theorem gather_complete {immune : List Int} {rd : Reader} {x : Item} {tx : ItemType} {attr : Int}
+    {mods : List Mod} (h : gather u cfg immune rd x tx attr = .ok mods)
+    {a : Item} (ha : a ∈ cfg.items) {ta : ItemType} (hta : itemType? u cfg a = some ta)
+    {e : Effect} (he : e ∈ runningEffects u cfg a) {m : Modifier} (hm : m.tgtAttr = attr)
+    {v : Rat} (hv : rd a m.srcAttr = .ok v) (hsel : Selects u cfg rd x tx a e m) :
+    Hit cfg rd x e (match ta.category with | some c => immune.contains c | none => false) m v mods := by
+  rw [gather_eq] at h
+  have hmono : ∀ (acc : List Mod) (a : Item) (acc' : List Mod),
+      (match itemType? u cfg a with
+        | none => Except.ok acc
+        | some ta => (runningEffects u cfg a).foldlM (effStep u cfg immune rd x tx attr a ta) acc) = .ok acc' →
+      acc ⊆ acc' := by
+    intro acc a acc' hf
+    split at hf
+    · cases hf; exact List.Subset.refl _
+    · exact foldlM_sub _ effStep_mono _ _ _ hf
+  refine foldlM_hit _ hmono _ Hit.mono _ a ha ?_ _ _ h
+  intro acc acc' hf
+  rw [hta] at hf
+  exact foldlM_hit _ effStep_mono _ Hit.mono _ e he (effStep_hit hm hv hsel) _ _ hf
+
+/-! ## Error outcomes of `gather` are never `absent` -/
+
+theorem foldlM_except_err {ε α β : Type} (Q : ε → Prop) (f : β → α → Except ε β) (l : List α) :
+    ∀ (init : β) (e : ε), (∀ acc a e, a ∈ l → f acc a = .error e → Q e) →
+      l.foldlM f init = .error e → Q e := by
+  induction l with
+  | nil => intro init e _ h; cases h
+  | cons a l ih =>
+    intro init e hstep h
+    rw [List.foldlM_cons] at h
+    cases hf : f init a with
+    | error e' => rw [hf] at h; cases h; exact hstep _ _ _ List.mem_cons_self hf
+    | ok b =>
+      rw [hf] at h
+      exact ih b e (fun acc a' e' ha' => hstep acc a' e' (List.mem_cons_of_mem _ ha')) h
+
+theorem except_bind_err {ε α β : Type} {x : Except ε α} {f : α → Except ε β} {e : ε}
+    (h : (x >>= f) = .error e) : x = .error e ∨ ∃ a, x = .ok a ∧ f a = .error e := by
+  cases x with
+  | error e' => cases h; exact Or.inl rfl
+  | ok a => exact Or.inr ⟨a, rfl, h⟩
+
+theorem resistOf_ne_absent (rd : Reader) (e : Effect) (x : Item) : resistOf cfg rd e x ≠ .absent := by
+  unfold resistOf
+  split
+  · simp
+  · split
+    · simp
+    · dsimp only
+      split
+      · simp
+      · split
+        · simp
+        · assumption
+
+theorem mkMod_err {rd : Reader} {x a : Item} {e : Effect} {imm : Bool} {m : Modifier} {acc : List Mod}
+    {w : Val} (h : mkMod cfg rd x a e imm m acc = .error w) : w ≠ .absent := by
+  unfold mkMod at h
+  split at h
+  · cases h
+  · split at h
+    · cases h
+    · cases h; rename_i hr _; intro hw; exact resistOf_ne_absent _ _ _ hw
+  · cases h; assumption
+
+theorem mods_fold_err {rd : Reader} {x a : Item} {e : Effect} {imm : Bool} (l : List Modifier)
+    (acc : List Mod) (w : Val) (h : l.foldlM (fun acc m => mkMod cfg rd x a e imm m acc) acc = .error w) :
+    w ≠ .absent :=
+  foldlM_except_err (· ≠ .absent) _ l acc w (fun _ _ _ _ hf => mkMod_err hf) h
+
+theorem buffModifiers_err {rd : Reader} {a : Item} {w : Val} (h : buffModifiers u rd a = .error w) :
+    w ≠ .absent := by
+  unfold buffModifiers at h
+  refine foldlM_except_err (· ≠ .absent) _ _ [] w ?_ h
+  intro acc p e _ hf
+  split at hf
+  · cases hf
+  · cases hf
+  · cases hf; assumption
+
+theorem effStep_err {immune : List Int} {rd : Reader} {x : Item} {tx : ItemType} {attr : Int} {a : Item}
+    {ta : ItemType} {acc : List Mod} {e : Effect} {w : Val}
+    (h : effStep u cfg immune rd x tx attr a ta acc e = .error w) : w ≠ .absent := by
+  unfold effStep at h
+  rcases except_bind_err h with h1 | ⟨acc1, _, h⟩
+  · exact mods_fold_err _ _ _ h1
+  rcases except_bind_err h with h2 | ⟨acc2, _, h⟩
+  · exact foldlM_except_err (· ≠ .absent) _ _ _ _ (fun _ _ _ _ hf => mods_fold_err _ _ _ hf) h2
+  split at h
+  · rcases except_bind_err h with h3 | ⟨bms, _, h⟩
+    · split at h3
+      · exact buffModifiers_err h3
+      · cases h3
+    · exact foldlM_except_err (· ≠ .absent) _ _ _ _ (fun _ _ _ _ hf => mods_fold_err _ _ _ hf) h
+  · cases h
+
+theorem gather_err {immune : List Int} {rd : Reader} {x : Item} {tx : ItemType} {attr : Int} {w : Val}
+    (h : gather u cfg immune rd x tx attr = .error w) : w ≠ .absent := by
+  rw [gather_eq] at h
+  refine foldlM_except_err (· ≠ .absent) _ _ [] w ?_ h
+  intro acc a e _ hf
+  split at hf
+  · cases hf
+  · exact foldlM_except_err (· ≠ .absent) _ _ _ _ (fun _ _ _ _ hf => effStep_err hf) hf
+
+theorem capOf_err {rd : Reader} {x : Item} {am : AttrMeta} {w : Val} (h : capOf rd x am = .error w) :
+    w ≠ .absent := by
+  unfold capOf at h
+  split at h
+  · cases h
+  · split at h
+    · cases h
+    · cases h
+    · cases h; assumption
+
+/-- The value is absent exactly for a skill level that is not set, an item that is not loaded, or an
+attribute with neither a base value on the item type nor a default. -/
+theorem valueOf_absent_iff (immune limited : List Int) (pen : Nat → Rat) (rd : Reader) (x : Item)
+    (am : AttrMeta) :
+    valueOf u cfg immune limited pen rd x am = .absent ↔
+      if x.kind = .skill ∧ am.id = 280 then x.level = none
+      else ∀ tx, itemType? u cfg x = some tx → baseOf tx am = none := by
+  rw [valueOf_eq]
+  by_cases hs : x.kind = .skill ∧ am.id = 280
+  · rw [if_pos (by simpa using hs), if_pos hs]
+    cases x.level <;> simp
+  · rw [if_neg (by simpa using hs), if_neg hs]
+    cases ht : itemType? u cfg x with
+    | none => simp
+    | some tx =>
+      simp only [Option.some.injEq, forall_eq']
+      cases hb : baseOf tx am with
+      | none => simp
+      | some b =>
+        simp only [reduceCtorEq, iff_false]
+        cases hg : gather u cfg immune rd x tx am.id with
+        | error w => exact gather_err hg
+        | ok mods =>
+          cases hc : capOf rd x am with
+          | error w => exact capOf_err hc
+          | ok cap =>
+            dsimp only
+            split <;> simp
+
+/-! ## A two-item world for non-vacuity examples
+
+A ship (type 1, category 6) with attribute 37 = 100 and a low-slot module (type 2) with attribute
+20 = 3/2 whose passive effect 1000 post-multiplies the ship's attribute 37 by the module's attribute 20. -/
+def exUniverse : Universe :=
+  { attrs := [⟨20, none, none, true, false⟩, ⟨37, none, some 0, true, false⟩],
+    effects := [⟨1000, 0, none, none, false, [⟨1, 3, none, 37, 6, 1, none, 20⟩]⟩],
+    types := [⟨1, none, some 6, none, [(37, 100)], [], []⟩, ⟨2, none, some 7, none, [(20, 3/2)], [1000], []⟩] }
+def exShip : Item := ⟨1, .ship, 1, 0, 1, none, none, none, []⟩
+def exModule : Item := ⟨2, .moduleLow, 2, 0, 1, none, none, none, []⟩
+def exConfig : Config :=
+  { hasSource := true, fits := [⟨0, some 1, none, none⟩], items := [exShip, exModule] }
+
 end Eos.World
